@@ -16,6 +16,7 @@ import PPProofs.Props.C11Deep
 #print axioms PP.PRHeap.deepcopy_tokens_fresh
 #print axioms PP.PRHeap.deepcopy_frame_tokens
 #print axioms PP.PRHeap.deepcopy_frame_tokens_many
+#print axioms PP.PRHeap.deepcopy_frame_views
 #print axioms PP.PRHeap.deepcopy_names_shared
 #print axioms PP.PRHeap.deepcopy_named_alias_any_depth
 #print axioms PP.PRHeap.deepcopy_tokens_fresh_full
